@@ -50,7 +50,7 @@ def gen_case(kind, rng, tier="quick"):
         elif kind == "skipgram":
             params = {"window_radius": rng.choice([1, 2, 5]), "kernel_function": rng.choice(["flat", "harmonic"])}
         elif kind == "tokencooc":
-            params = {"window_radii": rng.choice([1, 2, 3]), "window_orientations": rng.choice(["before", "after", "symmetric", "directional"]),
+            params = {"window_radii": rng.choice([1, 2, 3]), "window_orientations": rng.choice(["before", "after", "directional"]),
                       "kernel_functions": rng.choice(["flat", "harmonic"])}
             if rng.random() < 0.3:
                 params.update(min_occurrences=3, mask_string="[MASK]")
@@ -67,14 +67,14 @@ def gen_case(kind, rng, tier="quick"):
             return out
         X = [tdoc(alpha, 0, 9) for _ in range(rng.randint(1, 3))] + [[[a, float(i + 1)] for i, a in enumerate(alpha + alpha)]]
         Xt = [tdoc(sup, 0, 8), tdoc(sub, 0, 4), [], tdoc(alpha, 10, 14)]
-        params = {"window_radii": rng.choice([1, 2, 4]), "window_orientations": rng.choice(["before", "after", "symmetric", "directional"])}
+        params = {"window_radii": rng.choice([1, 2, 4]), "window_orientations": rng.choice(["before", "after", "directional"])}
         return {"kind": kind, "params": params, "X": X, "Xt": Xt}
     if kind == "multisetcooc":
         def mdoc(al, lo, hi):
             return [_seq(rng, al, 1, 3) for _ in range(rng.randint(lo, hi))]
         X = [mdoc(alpha, 0, 6) for _ in range(rng.randint(1, 3))] + [[[a] for a in alpha + alpha]]
         Xt = [mdoc(sup, 0, 6), mdoc(sub, 0, 3), [], mdoc(alpha, 8, 10)]
-        params = {"window_radii": rng.choice([1, 2]), "window_orientations": rng.choice(["before", "after", "symmetric", "directional"])}
+        params = {"window_radii": rng.choice([1, 2]), "window_orientations": rng.choice(["before", "after", "directional"])}
         return {"kind": kind, "params": params, "X": X, "Xt": Xt}
     if kind == "tree":
         def forest(al, n):
